@@ -255,6 +255,34 @@ def run_case(R, obs, rng, tier, ops, kind, tree, alts, ctx_list, label, value_ch
             R.count("not_separated_cases")
 
 
+def literal_cases(R, obs, rng, ops, kind):
+    """the same grouping question with literal operands (`a op1 K1 op2 K2`, `K0 op1 a op2 K2`), compiled with and without
+    optimisation: a constant folder or re-associating peephole must not regroup"""
+    T = INT if kind == "int" else FLOAT
+    a = Var("a", T)
+    lit = (lambda v: IntLit(v)) if kind == "int" else (lambda v: __import__("nslverif.lang", fromlist=["FloatLit"]).FloatLit(float(v)))
+    for ks, layout_ in (((3, 2), "aKK"), ((7, 5), "aKK"), ((5, 3), "KaK"), ((2, 7), "KKa")):
+        if layout_ == "aKK":
+            operands = [a, lit(ks[0]), lit(ks[1])]
+        elif layout_ == "KaK":
+            operands = [lit(ks[0]), a, lit(ks[1])]
+        else:
+            operands = [lit(ks[0]), lit(ks[1]), a]
+        try:
+            tree = natural(list(ops), operands)
+        except ValueError:
+            continue
+        f = Func("f", [(T, "a")], tree.ty, Block([Return(tree)]), True)
+        m = Module(funcs=[f])
+        inputs = [({"a": v}, {}) for v in ((10, 1, 4, 0, 9) if kind == "int" else (10.0, 1.5, 4.0, 0.0, 9.25))]
+        case = "literal:%s:%s:%s" % (kind, layout_, " ".join(ops))
+        for opt in (False, True):
+            res = diff.check_program(R, obs, case, m, "f", inputs, "value:literal:%s:%s" % (layout_, "O1" if opt else "O0"), optimize=opt)
+            if res["runnable"] and res["bad"] == 0:
+                R.nontriv(res["source"], opt)
+        R.count("literal_operand_cases")
+
+
 def _mech(ops, expected, got):
     """mechanism key: the precedence levels of the operators involved and which way it went"""
     lv = "-".join(str(PREC[o]) for o in ops)
@@ -293,6 +321,8 @@ def run_shard(tier, seed, shard, n, R):
         alts = [s for s in shapes if full_paren(s) != nat_s]
         ctxs = contexts(nat, kind) + (pair_contexts(nat, kind) if len(ops) == 2 else [])
         run_case(R, obs, rng, tier, ops, kind, nat, alts, ctxs, "plain/%d" % len(ops))
+        if len(ops) == 2:
+            literal_cases(R, obs, rng, ops, kind)
         # 2. every parenthesisation: minimal parentheses force the shape
         for s in shapes:
             s_s = full_paren(s)
